@@ -30,7 +30,7 @@
 From Coq Require Import List ZArith Bool.
 Import ListNotations.
 From LC Require Import Base Tree Fp Lookup Api ScanAction Tokens Lexer Parser GrammarFacts Reader Writer WriterFacts LexWrite ParseWrite
-  ParseComplete ParseFail ParseExact ParseTotal.
+  ParseComplete ParseFail ParseExact ParseTotal ParseNames Bisim.
 From LC.gen Require Import Consts.
 Local Open Scope Z_scope.
 
@@ -180,6 +180,15 @@ Theorem C02_read_reject_semantic : forall atof FS c top text,
                  (e = PErrDup \/ e = PErrMismatch).
 Proof. exact read_reject_semantic. Qed.
 Print Assumptions C02_read_reject_semantic.
+
+(* the "valid name" conjunct of the semantic conditions is always true for config_read: every member name of every
+   tree that spells the scanner's stream is valid (C18_names_valid), so "duplicate setting name" is a real duplicate *)
+Theorem C02_read_names_valid : forall atof FS,
+  (forall f content, fs_lookup FS f = Some (FFile content) -> bytes_ok content) ->
+  forall c top text ms, bytes_ok text ->
+  spells ms (fst (lex_top atof FS c top text)) -> nv_m ms = true.
+Proof. exact read_names_valid. Qed.
+Print Assumptions C02_read_names_valid.
 
 (* non-vacuity *)
 Definition mk (t : token) : ltoken := mkLT t 1 None None [] [] [].
